@@ -658,6 +658,10 @@ class GraphColoringRegisterAllocator:
             src = self.node(m.used_registers[0])
             dst = self.node(m.defined_registers[0])
             v = src if u is dst else dst
+            if v is u:
+                # Both sides of this move ended up in the same node, it
+                # became an identity move. Nothing else to update.
+                continue
             if (
                 v not in self.precolored
                 and not self.is_move_related(v)
